@@ -111,3 +111,17 @@ def gen_C02(tier, rng):
                     for ops in ("uuu", "mmm", "umu", "mum"):
                         prog = ";".join(o + hx(p) for o, p in zip(ops, parts))
                         yield (f"hctx.{alg} {prog};d;F;d", "hist.split")
+
+
+# ----------------------------------------------------------------------------- C20 (sha2 part)
+
+OUT_BYTES = {"sha224": 28, "sha256": 32, "sha384": 48, "sha512": 64, "sha512_224": 28, "sha512_256": 32}
+
+
+def gen_C20(tier, rng):
+    """refusal matrix of the legacy `Digest` wrappers (`computed` assert, exact-length `result` buffer); the `hashing`
+    contexts have no refusing call: every reuse pattern is answered"""
+    from . import _refusal
+    for alg, B in ALGS:
+        yield from _refusal.digest_object_rows(alg, OUT_BYTES[alg], B, rng)
+        yield from _refusal.context_reuse_rows(alg, B, rng)
